@@ -115,8 +115,8 @@ class C06:
         direct = {name: f for name, f in self.em.methods.items() if self._writes_cursor(f, 0)}
         helpers = {f.qname for name, f in direct.items() if name.startswith("_") and name not in ("_do_unsafe", "_do_first_init")}
         for name, f in self.em.methods.items():
-            if name == "_do_unsafe" or f.qname in helpers:
-                continue        # _do_unsafe: rule R1; helpers are accounted for at their call sites
+            if f.qname in helpers:
+                continue        # helpers are accounted for at their call sites
             g = ctx.cfg(f)
             writes = []
             for nd in g.nodes:
@@ -127,7 +127,7 @@ class C06:
                     if isinstance(x, ast.Call):
                         if pat.match("self.state.storage_update_data(self._cursor_tag, $$$)", x) is not None:
                             writes.append(nd)
-                        else:
+                        elif name != "_do_unsafe":       # in _do_unsafe the helper call behind the exhausted events loop is rule R1's
                             s_ = ctx.site_of(f, x, "call")
                             if s_ is not None and any(t.qname in helpers for t in s_.under):
                                 writes.append(nd)
@@ -160,11 +160,14 @@ class C06:
             rep.check("C06.R3", "do|CloudCursorError", ctx.line(f, h.ast), pth is None, "need_walk = True on every path of the handler",
                       "the cursor-error handler can finish without requesting a walk: everything between the lost cursor and the fresh one is never seen",
                       witness=describe_path(pth) if pth else None)
-        fi = self.em.methods["_do_first_init"]
+        fi = self.em.methods.get("_do_first_init") or self.em.methods["_do_unsafe"]      # the first-step block, wherever it lives
         gi = ctx.cfg(fi)
         hs = [n for n in gi.nodes if n.kind == "except" and n.handler_types and "CloudCursorError" in n.handler_types]
         for h in hs:
-            pth = gi.reach([h.id], lambda m: m is gi.exit, follow=NORMAL)
+            # the handler must leave by raising: no normal path from it to the end of the try statement it belongs to
+            after = {b for t in ctx.own_nodes(fi) if isinstance(t, ast.Try) and any(hh is h.ast for hh in t.handlers)
+                     for b in [x.id for x in gi.nodes if x.kind == "join"]}
+            pth = gi.reach([h.id], lambda m: m is gi.exit or (m.kind == "stmt" and isinstance(m.ast, ast.Assign) and pat.match("self._first_do = False", m.ast) is not None), follow=NORMAL)
             rep.check("C06.R3", "_do_first_init|CloudCursorError", ctx.line(fi, h.ast), pth is None, "handler re-raises on every path",
                       "_do_first_init swallows CloudCursorError: do()'s handler (fresh cursor + walk) never runs", witness=describe_path(pth) if pth else None)
         if not hs:
@@ -316,3 +319,53 @@ def run(ctx: Ctx, rep: Report, tier: str):
     data_rows_follow_storage(ctx, rep, "C06.R8")
     rep.rule("C06.R9", "the first step after a (re)start is repeated until it completed: _do_first_init clears _first_do after its last provider / state call", 1)
     first_init_completes_before_flag(ctx, rep, "C06.R9")
+    rep.rule("C06.R10", "what was persisted is read back: _validate_root loads `self.cursor` from storage (under the cursor tag it just computed) on every path that "
+             "declares the root validated; the walk obligation is recomputed from the stored cursor and walk marker", 2)
+    vr = ctx.prog.func("EventManager._validate_root")
+    gv = ctx.cfg(vr)
+    val = [n for n in gv.nodes if node_stores_attr(n, "_root_validated", "True")]
+    load = [n for n in gv.nodes if cfg_root(n) is not None and isinstance(cfg_root(n), ast.Assign) and pat.match("self.cursor = self.state.storage_get_data(self._cursor_tag)", cfg_root(n)) is not None]
+    tagst = [n for n in gv.nodes if node_stores_attr(n, "_cursor_tag")]
+    if not val:
+        raise AnalysisError("_validate_root never declares the root validated")
+    pth = gv.reach([gv.entry.id], lambda n: n in val, avoid=lambda n: n in load, follow=NORMAL)
+    # the load must come after the tag was computed
+    pth2 = gv.reach([gv.entry.id], lambda n: n in load, avoid=lambda n: n in tagst, follow=NORMAL) if load else []
+    rep.check("C06.R10", "_validate_root|cursor-loaded", vr, bool(load) and pth is None and pth2 is None, "cursor := storage_get_data(cursor tag) before the root is declared validated",
+              "the event manager can start without reading the stored cursor back (or reads it under a stale tag): a restart behaves like a first start / skips the outage",
+              witness=describe_path(pth or pth2) if (pth or pth2) else None)
+    nw = [n for n in ctx.own_nodes(vr) if isinstance(n, ast.Assign) and pat.match("self.need_walk", n.targets[0]) is not None]
+    okw = bool(nw) and all(pat.match("self.cursor is None or self.state.storage_get_data(self._walk_tag) is None", n.value) is not None for n in nw)
+    rep.check("C06.R10", "_validate_root|walk-owed", vr, okw, "need_walk := no stored cursor or no walk marker",
+              "the walk obligation after a restart is no longer `no stored cursor or no walk marker`: an interrupted walk is not repeated / a complete one is")
+    rep.rule("C06.R11", "every intake step first restores the cursor (first step) and pays the walk it owes, then drains queued and provider events: in _do_unsafe "
+             "_do_first_init() and _do_walk_if_needed() precede every _process_event / events() on every path", 2)
+    du = ctx.prog.func("EventManager._do_unsafe")
+    gd = ctx.cfg(du)
+    work = [n for n in gd.nodes if node_has_call(n, "self._process_event($$$)") or node_has_call(n, "self.provider.events()")]
+    for nm in ("_do_first_init", "_do_walk_if_needed"):
+        pre = [n for n in gd.nodes if node_has_call(n, "self.%s()" % nm)]
+        if not pre and nm == "_do_first_init":      # inlined: the test of the first-step flag is the block's entry
+            pre = [n for n in gd.nodes if n.kind == "test" and any(pat.match("self._first_do", x) is not None for x in ast.walk(n.ast))]
+        if not pre and nm == "_do_walk_if_needed":
+            pre = [n for n in gd.nodes if n.kind == "test" and any(pat.match("self.need_walk", x) is not None for x in ast.walk(n.ast))]
+        p_ = gd.reach([gd.entry.id], lambda n: n in work, avoid=lambda n: n in pre, follow=NORMAL)
+        rep.check("C06.R11", "_do_unsafe|%s" % nm, du, bool(pre) and p_ is None, "%s() first" % nm,
+                  "_do_unsafe can process events without %s(): %s" % (nm, "the stored cursor is never pushed into the provider - events of the outage are skipped" if nm == "_do_first_init"
+                                                                     else "an owed walk (first start, lost cursor) never happens - pre-existing files are never discovered"),
+                  witness=describe_path(p_) if p_ else None)
+    rep.rule("C06.R12", "a rejected cursor is replaced by the provider's latest one before it is persisted: the CloudCursorError handler of do() re-positions the provider "
+             "(current_cursor := latest_cursor) before _save_current_cursor()", 1)
+    dof = ctx.prog.func("EventManager.do")
+    gdo = ctx.cfg(dof)
+    hs_ = [h for t in ctx.own_nodes(dof) if isinstance(t, ast.Try) for h in t.handlers if h.type is not None and "CloudCursorError" in ast.unparse(h.type)]
+    if not hs_:
+        raise AnalysisError("EventManager.do: CloudCursorError handler not found")
+    for h in hs_:
+        st0 = [x.id for x in gdo.nodes if x.kind == "stmt" and h.body and x.ast is h.body[0]]
+        repos = lambda n: cfg_root(n) is not None and isinstance(cfg_root(n), ast.Assign) and pat.match("self.provider.current_cursor = self.provider.latest_cursor", cfg_root(n)) is not None   # noqa: E731
+        save = [n for n in gdo.nodes if node_has_call(n, "self._save_current_cursor()")]
+        p_ = gdo.reach(st0, lambda n: n in save, avoid=repos, follow=gdo.intended, include_src=True)
+        rep.check("C06.R12", "do|cursor-error|reposition", ctx.line(dof, h), bool(save) and p_ is None, "current_cursor := latest_cursor, then save",
+                  "after a rejected cursor the provider is not re-positioned before the cursor is saved: the same rejected cursor is persisted again and every restart fails the same way",
+                  witness=describe_path(p_) if p_ else None)
